@@ -367,8 +367,64 @@ def rule_uncond(ctx, rep):
                 r.ok(inst, where)
 
 
+FLOAT_CONV = ("to_string", "new_display", "new_upper_exp", "new_lower_exp", "new_debug")
+
+
+def rule_real(ctx, rep):
+    """The grammar's real literal needs a fraction (`1.0`, `1.0E-6`: tokens FixedPoint/FloatingPoint both require `.digits`).  No std
+    formatter of f64 guarantees one: Display prints 1.0 as `1`, {:E} prints 1.0E-6 as `1E-6`, Debug switches to `1e16`.  So every
+    f64 -> text conversion in the renderer must be followed by a look at the produced text for the `.` (contains/find/ends_with/
+    split_once with '.') - the only way to know a fraction has to be appended."""
+    from rules.c14 import _str_root
+    r = rep.rule("R-C10-real", "every f64 -> text conversion in the renderer is followed by a check of that text for a fraction point (std float "
+                               "formatting omits it for whole numbers and one-digit mantissas; the grammar's real literal requires it)", floor=1,
+                 floor_what="f64 formatting sites in the renderer")
+    n = 0
+    for b in sorted(ctx.prog.bodies.values(), key=lambda x: x.id):
+        if b.f["crate"] != "ironplc_plc2plc" or "::test" in norm(b.id):
+            continue
+        cnt = {}
+        for c in sorted(b.calls(), key=lambda c: (c.loc[0], c.loc[1])):
+            nm = (c.callee or c.u or "").split("::")[-1]
+            if nm not in FLOAT_CONV or "f64" not in (c.ga or "") and "f32" not in (c.ga or ""):
+                continue
+            if nm == "to_string" and (c.u or "") != "alloc::string::ToString::to_string":
+                continue
+            n += 1
+            k = cnt[nm] = cnt.get(nm, 0) + 1
+            texts = set()
+            if nm == "to_string":
+                texts.add(c.dest[0])
+            else:
+                for c2 in b.calls():
+                    if (c2.callee or "") == "alloc::fmt::format" and c2.loc[0] == c.loc[0]:
+                        texts.add(c2.dest[0])
+                        for c3 in b.calls():
+                            if (c3.callee or "") == "core::hint::must_use" and c3.args and op_place(c3.args[0]) and op_place(c3.args[0])[0] == c2.dest[0]:
+                                texts.add(c3.dest[0])
+            ev = None
+            for c2 in b.calls():
+                n2 = (c2.callee or c2.u or "").split("::")[-1]
+                if n2 not in ("contains", "find", "rfind", "ends_with", "split_once", "rsplit_once") or len(c2.args) < 2:
+                    continue
+                k2 = b.const_of(c2.args[1])
+                dot = k2 is not None and len(k2) > 3 and isinstance(k2[3], dict) and (k2[3].get("int") == "46" or k2[3].get("str") == ".")
+                rt = _str_root(b, c2.args[0])
+                if dot and rt is not None and rt[0] in texts:
+                    ev = c2
+            fn = re.sub(r"^<ironplc_plc2plc::renderer::LibraryRenderer as .*>::", "", norm(b.id)).replace("ironplc_plc2plc::", "")
+            inst = "%s|f64 %s#%d" % (fn, nm, k)
+            if ev:
+                r.ok(inst, loc_str(b.f, c.loc), "text checked for '.' at line %d" % ev.loc[0])
+            else:
+                r.finding(inst + "|fraction-not-ensured", loc_str(b.f, c.loc),
+                          "the formatted number is written without ensuring a fraction: whole values (1.0 -> `1`, LREAL#3.0 -> `LREAL#3`) or "
+                          "one-digit mantissas (`1E-6`) render to text that is not a real literal (re-parses as an integer or is rejected)")
+    r.note("%d f64 formatting sites" % n)
+
+
 def run(ctx, rep):
-    rep.not_decided += ["parse(render(L)) == L itself (value-level)", "numeric formatting (1.0 printed as 1, durations truncated to whole ms)",
+    rep.not_decided += ["parse(render(L)) == L itself (value-level)", "numeric formatting other than the fraction point of reals (durations truncated to whole ms)",
                         "separator/bracket completeness per production (design rule R-C10-sep not implemented: needs per-production token multisets)",
                         "that every node kind with own tokens has a writer (design rule R-C10-prod was built and withdrawn: it could not tell wrapper variants and fieldless constants from real productions without a suppression list wider than single constructs, see DESIGN.md)"]
     rep.assumptions += ["all C10 findings on the pinned tree are frozen byte-for-byte by the *_rendered.st fixtures, so they are recorded as known findings and cannot be repaired"]
@@ -377,3 +433,4 @@ def run(ctx, rep):
     rule_quotes(ctx, rep)
     rule_paren(ctx, rep)
     rule_uncond(ctx, rep)
+    rule_real(ctx, rep)
